@@ -1,13 +1,405 @@
 /-
   C20 — event emitter: ordered delivery, exact unsubscription, once means once.
+
+  All theorems are about the model `HotXL.Model.Emitter` of hotxlfp/tinyemitter.py
+  (`State`, `doOn/doOnce/doOff/doOffCb`, `runOps/step/deliver/call`, `run`).
+  Specification vocabulary (defined in `HotXL.Lemmas.Emitter`):
+    `Listener.cb l`      the host callback finally called by listener `l`
+    `Listener.wid? l`    `some wid` for a once-wrapper, `none` for a plain `on` listener
+    `Listener.isPlain l` `true` for a plain `on` listener
+    `entryOf n arg d l`  the log entry `{cb := l.cb, arg, ctx := l.ctx, via := l.wid?, name := n, depth := d}`
+    `viaCount w log`     number of entries of `log` delivered through once-wrapper `w`
+    `WF σ`               well-formed state (see `WF_iff` below)
 -/
 import HotXL.Model.Emitter
+import HotXL.Lemmas.Emitter
 
 namespace HotXL.Props.C20
 open HotXL HotXL.Emitter
 
+/-! ## 1. `off(name)` -/
+
 /-- unsubscribing a name removes all its listeners -/
 theorem off_name (σ : State) (n : Name) : (doOff σ n).subs n = [] := by
   simp [doOff, setSubs]
+
+/-- unsubscribing a name leaves the listeners of every other name untouched -/
+theorem off_name_others (σ : State) {m n : Name} (h : m ≠ n) : (doOff σ n).subs m = σ.subs m :=
+  setSubs_subs_of_ne σ h []
+
+/-! ## 2. `off(name, callback)` -/
+
+/-- `l` is the plain listener for host callback `cb`, or a once-wrapper of `cb` -/
+def refersTo (cb : CbId) (l : Listener) : Bool :=
+  match l.fn with
+  | .plain c => c == cb
+  | .wrapper _ c => c == cb
+
+/-- `refersTo` spelled out -/
+theorem refersTo_iff (cb : CbId) (l : Listener) :
+    refersTo cb l = true ↔ (l.fn = .plain cb ∨ ∃ wid, l.fn = .wrapper wid cb) := by
+  cases l with | mk fn ctx =>
+  cases fn <;> simp [refersTo]
+
+/-- unsubscribing a (name, callback) pair keeps, in their original order, exactly the listeners of
+    that name that do not refer to the callback (neither directly nor as a once-wrapper) -/
+theorem off_pair (σ : State) (n : Name) (cb : CbId) :
+    (doOffCb σ n cb).subs n = (σ.subs n).filter (fun l => !refersTo cb l) := by
+  rw [doOffCb, setSubs_subs_self]
+  apply List.filter_congr
+  intro l _
+  cases l with | mk fn ctx =>
+  cases fn <;> simp [keepsAgainstCb, refersTo, bne]
+
+/-- … so what remains is a sub-sequence of the old list (order preserved) -/
+theorem off_pair_sublist (σ : State) (n : Name) (cb : CbId) :
+    ((doOffCb σ n cb).subs n).Sublist (σ.subs n) := by
+  rw [off_pair]; exact List.filter_sublist
+
+/-- after `off(name, callback)` no listener of that name refers to the callback: plain listeners
+    and once-listeners for it are all removed -/
+theorem off_pair_removes_all (σ : State) (n : Name) (cb : CbId) :
+    ∀ l ∈ (doOffCb σ n cb).subs n, refersTo cb l = false := by
+  intro l hl
+  rw [off_pair] at hl
+  simpa using (List.mem_filter.mp hl).2
+
+/-- `off(name, callback)` keeps every listener of that name that does not refer to the callback -/
+theorem off_pair_keeps_others (σ : State) (n : Name) (cb : CbId) :
+    ∀ l ∈ σ.subs n, refersTo cb l = false → l ∈ (doOffCb σ n cb).subs n := by
+  intro l hl hr
+  rw [off_pair]
+  exact List.mem_filter.mpr ⟨hl, by simp [hr]⟩
+
+/-- `off(name, callback)` leaves the listeners of every other name untouched -/
+theorem off_pair_others (σ : State) {m n : Name} (cb : CbId) (h : m ≠ n) :
+    (doOffCb σ n cb).subs m = σ.subs m :=
+  setSubs_subs_of_ne σ h _
+
+/-! ## 3. `on` / `once`: subscription order -/
+
+/-- `on` appends the new plain listener (with its bound context) at the end of that name's list and
+    changes nothing else -/
+theorem on_appends (σ : State) (n : Name) (cb : CbId) (ctx : Ctx) :
+    (doOn σ n cb ctx).subs n = σ.subs n ++ [{ fn := .plain cb, ctx := ctx }] ∧
+    (∀ m, m ≠ n → (doOn σ n cb ctx).subs m = σ.subs m) ∧
+    (doOn σ n cb ctx).nextWid = σ.nextWid ∧ (doOn σ n cb ctx).fired = σ.fired := by
+  refine ⟨by simp [doOn_subs], ?_, rfl, rfl⟩
+  intro m hm; simp [doOn_subs, hm]
+
+/-- `once` appends a new once-wrapper (id `σ.nextWid`, bound context `ctx`) at the end of that name's
+    list, bumps the allocation counter and changes nothing else -/
+theorem once_appends (σ : State) (n : Name) (cb : CbId) (ctx : Ctx) :
+    (doOnce σ n cb ctx).subs n = σ.subs n ++ [{ fn := .wrapper σ.nextWid cb, ctx := ctx }] ∧
+    (∀ m, m ≠ n → (doOnce σ n cb ctx).subs m = σ.subs m) ∧
+    (doOnce σ n cb ctx).nextWid = σ.nextWid + 1 ∧ (doOnce σ n cb ctx).fired = σ.fired := by
+  refine ⟨by simp [doOnce_subs], ?_, rfl, rfl⟩
+  intro m hm; simp [doOnce_subs, hm]
+
+/-- the wrapper id allocated by `once` is fresh in a well-formed state: no subscribed listener uses
+    it and its flag is not set -/
+theorem once_wrapper_fresh {σ : State} (h : WF σ) :
+    (∀ m, ∀ l ∈ σ.subs m, l.wid? ≠ some σ.nextWid) ∧ σ.nextWid ∉ σ.fired := by
+  refine ⟨?_, fun hf => Nat.lt_irrefl _ (h.fired_lt _ hf)⟩
+  intro m l hl hw
+  exact Nat.lt_irrefl _ (h.subs_lt m l _ hl hw)
+
+/-! ## 7. Well-formedness and "once means once" (all histories, all callbacks) -/
+
+/-- what `WF σ` says, with the once-wrappers written out as `Fn.wrapper wid cb` -/
+theorem WF_iff (σ : State) :
+    WF σ ↔
+      (∀ n l wid cb, l ∈ σ.subs n → l.fn = .wrapper wid cb → wid < σ.nextWid) ∧
+      (∀ w ∈ σ.fired, w < σ.nextWid) ∧
+      (∀ w ∈ σ.fired, ∀ n l cb, l ∈ σ.subs n → l.fn ≠ .wrapper w cb) ∧
+      (∀ m n l l' w cb cb', l ∈ σ.subs m → l' ∈ σ.subs n →
+          l.fn = .wrapper w cb → l'.fn = .wrapper w cb' → m = n) ∧
+      (∀ n, ((σ.subs n).filterMap Listener.wid?).Nodup) := by
+  constructor
+  · intro h
+    refine ⟨?_, h.fired_lt, ?_, ?_, h.nodup⟩
+    · intro n l wid cb hl hfn; exact h.subs_lt n l wid hl (wid?_of_wrapper hfn)
+    · intro w hw n l cb hl hfn; exact h.fired_gone w hw n l hl (wid?_of_wrapper hfn)
+    · intro m n l l' w cb cb' hl hl' hfn hfn'
+      exact h.home m n l l' w hl hl' (wid?_of_wrapper hfn) (wid?_of_wrapper hfn')
+  · rintro ⟨h1, h2, h3, h4, h5⟩
+    refine ⟨?_, h2, ?_, ?_, h5⟩
+    · intro n l w hl hw
+      obtain ⟨cb, hfn⟩ := (Listener.wid?_eq_some_iff l w).mp hw
+      exact h1 n l w cb hl hfn
+    · intro w hw n l hl hwid
+      obtain ⟨cb, hfn⟩ := (Listener.wid?_eq_some_iff l w).mp hwid
+      exact h3 w hw n l cb hl hfn
+    · intro m n l l' w hl hl' hw hw'
+      obtain ⟨cb, hfn⟩ := (Listener.wid?_eq_some_iff l w).mp hw
+      obtain ⟨cb', hfn'⟩ := (Listener.wid?_eq_some_iff l' w).mp hw'
+      exact h4 m n l l' w cb cb' hl hl' hfn hfn'
+
+/-- the initial (empty) emitter is well-formed -/
+theorem WF_init : WF init := WF.init
+
+/-- one operation (including an `emit` with arbitrary re-entrant callbacks) preserves well-formedness -/
+theorem WF_step (fuel : Nat) (sc : Scripts) (depth : Nat) {σ : State} (op : Op) (h : WF σ) :
+    WF (step fuel sc depth σ op).1 :=
+  (wf_all sc).2.1 fuel depth σ op h
+
+/-- any sequence of operations preserves well-formedness -/
+theorem WF_runOps (fuel : Nat) (sc : Scripts) (depth : Nat) {σ : State} (ops : List Op) (h : WF σ) :
+    WF (runOps fuel sc depth σ ops).1 :=
+  (wf_all sc).1 fuel depth σ ops h
+
+/-- every state reachable from the empty emitter is well-formed -/
+theorem WF_run (fuel : Nat) (sc : Scripts) (ops : List Op) : WF (run fuel sc ops).1 :=
+  WF_runOps fuel sc 0 ops WF.init
+
+/-- ONCE MEANS ONCE, from any start state: in the log of any sequence of operations, with arbitrary
+    callbacks (subscribing, unsubscribing, re-emitting the same event during delivery, …) and any
+    nesting bound, no once-wrapper is called more than once -/
+theorem once_at_most_once_from (fuel : Nat) (sc : Scripts) (depth : Nat) (σ : State) (ops : List Op)
+    (w : Nat) :
+    ((runOps fuel sc depth σ ops).2.filter (fun c => c.via = some w)).length ≤ 1 :=
+  ((firedInv_all sc).1 fuel depth σ ops).le_one w
+
+/-- ONCE MEANS ONCE: for every history run from the empty emitter, with arbitrary callbacks and any
+    nesting bound, no once-listener is ever called twice -/
+theorem once_at_most_once (fuel : Nat) (sc : Scripts) (ops : List Op) (w : Nat) :
+    ((run fuel sc ops).2.filter (fun c => c.via = some w)).length ≤ 1 :=
+  once_at_most_once_from fuel sc 0 init ops w
+
+/-- the `fired` flags are never reset -/
+theorem fired_mono (fuel : Nat) (sc : Scripts) (depth : Nat) (σ : State) (ops : List Op) :
+    ∀ w ∈ σ.fired, w ∈ (runOps fuel sc depth σ ops).1.fired :=
+  ((firedInv_all sc).1 fuel depth σ ops).mono
+
+/-- a once-wrapper whose flag is already set is never called again -/
+theorem fired_not_called (fuel : Nat) (sc : Scripts) (depth : Nat) (σ : State) (ops : List Op) :
+    ∀ w ∈ σ.fired, ∀ c ∈ (runOps fuel sc depth σ ops).2, c.via ≠ some w := by
+  intro w hw
+  exact (viaCount_eq_zero_iff w _).mp (((firedInv_all sc).1 fuel depth σ ops).old w hw)
+
+/-- a once-wrapper that was called has its flag set afterwards and (in a well-formed start state) is no
+    longer subscribed under any name -/
+theorem once_delivered_gone (fuel : Nat) (sc : Scripts) (depth : Nat) {σ : State} (hwf : WF σ)
+    (ops : List Op) (w : Nat) (c : Call) (hc : c ∈ (runOps fuel sc depth σ ops).2)
+    (hvia : c.via = some w) :
+    w ∈ (runOps fuel sc depth σ ops).1.fired ∧
+    ∀ m, ∀ l ∈ (runOps fuel sc depth σ ops).1.subs m, l.wid? ≠ some w := by
+  have hf : w ∈ (runOps fuel sc depth σ ops).1.fired :=
+    ((firedInv_all sc).1 fuel depth σ ops).marks w ((viaCount_pos_iff w _).mpr ⟨c, hc, hvia⟩)
+  exact ⟨hf, fun m l hl => (WF_runOps fuel sc depth ops hwf).fired_gone w hf m l hl⟩
+
+/-- a flag gets set only by calling that wrapper -/
+theorem fired_only_by_call (fuel : Nat) (sc : Scripts) (depth : Nat) (σ : State) (ops : List Op) :
+    ∀ w ∈ (runOps fuel sc depth σ ops).1.fired,
+      w ∈ σ.fired ∨ ∃ c ∈ (runOps fuel sc depth σ ops).2, c.via = some w := by
+  intro w hw
+  rcases ((firedInv_all sc).1 fuel depth σ ops).new w hw with h | h
+  · exact Or.inl h
+  · exact Or.inr ((viaCount_pos_iff w _).mp h)
+
+/-- a once-listener IS called by the first emit of its name: in a well-formed state, an emit of `n`
+    (with arbitrary callbacks) calls every once-wrapper subscribed to `n` exactly once — at top
+    level or inside a nested emit — even if a callback unsubscribes it meanwhile -/
+theorem emit_calls_every_once (fuel : Nat) (sc : Scripts) (depth : Nat) {σ : State} (hwf : WF σ)
+    (n : Name) (arg : Nat) (l : Listener) (hl : l ∈ σ.subs n) (w : Nat) (hw : l.wid? = some w) :
+    ((step fuel sc depth σ (.emit n arg)).2.filter (fun c => c.via = some w)).length = 1 := by
+  have hinv := (firedInv_all sc).2.1 fuel depth σ (.emit n arg)
+  have hnf : w ∉ σ.fired := fun hf => hwf.fired_gone w hf n l hl hw
+  have hfired : w ∈ (step fuel sc depth σ (.emit n arg)).1.fired := by
+    rw [step_emit]; exact deliver_fires fuel sc depth n arg (σ.subs n) σ l hl w hw
+  have h1 := hinv.le_one w
+  have h2 : 0 < viaCount w (step fuel sc depth σ (.emit n arg)).2 := by
+    rcases hinv.new w hfired with h | h
+    · exact absurd h hnf
+    · exact h
+  show viaCount w _ = 1
+  omega
+
+/-! ## 4. Delivery to pure listeners -/
+
+/-- fields of `entryOf`: the call of listener `l` for event `n` carries the emitted argument, the
+    listener's bound context, the event name and the nesting depth of the emit -/
+theorem entryOf_fields (n : Name) (arg d : Nat) (l : Listener) :
+    (entryOf n arg d l).cb = l.cb ∧ (entryOf n arg d l).arg = arg ∧ (entryOf n arg d l).ctx = l.ctx ∧
+    (entryOf n arg d l).via = l.wid? ∧ (entryOf n arg d l).name = n ∧ (entryOf n arg d l).depth = d :=
+  ⟨rfl, rfl, rfl, rfl, rfl, rfl⟩
+
+/-- with pure listeners (empty scripts) and a well-formed state, `emit n arg` logs exactly one call per
+    listener subscribed to `n`, in subscription order, each with the emitted argument, its bound
+    context, name `n` and the emit's depth; afterwards the once-wrappers of `n` are unsubscribed and
+    flagged, and nothing else has changed -/
+theorem emit_plain_delivery {sc : Scripts} (hsc : ∀ cb, sc cb = []) (fuel depth : Nat) {σ : State}
+    (hwf : WF σ) (n : Name) (arg : Nat) :
+    (step fuel sc depth σ (.emit n arg)).2 = (σ.subs n).map (entryOf n arg depth) ∧
+    (step fuel sc depth σ (.emit n arg)).1.subs n = (σ.subs n).filter Listener.isPlain ∧
+    (∀ m, m ≠ n → (step fuel sc depth σ (.emit n arg)).1.subs m = σ.subs m) ∧
+    (step fuel sc depth σ (.emit n arg)).1.nextWid = σ.nextWid ∧
+    (step fuel sc depth σ (.emit n arg)).1.fired
+      = ((σ.subs n).filterMap Listener.wid?).reverse ++ σ.fired := by
+  have hnf : ∀ w ∈ (σ.subs n).filterMap Listener.wid?, w ∉ σ.fired := by
+    intro w hw hf
+    obtain ⟨l, hl, hwid⟩ := List.mem_filterMap.mp hw
+    exact hwf.fired_gone w hf n l hl hwid
+  rw [step_emit, deliver_pure hsc fuel depth n arg (σ.subs n) σ hnf (hwf.nodup n)]
+  refine ⟨rfl, ?_, ?_, rfl, rfl⟩
+  · simp only [if_true]; exact filter_notWrapperIn_self _
+  · intro m hm; simp [hm]
+
+/-- once-listeners fire on the first emit only: with pure listeners, the second of two consecutive
+    emits of `n` calls exactly the plain (`on`) listeners of `n` again, in order, and no once-listener -/
+theorem emit_twice_once_only {sc : Scripts} (hsc : ∀ cb, sc cb = []) (fuel depth : Nat) {σ : State}
+    (hwf : WF σ) (n : Name) (arg1 arg2 : Nat) :
+    (step fuel sc depth (step fuel sc depth σ (.emit n arg1)).1 (.emit n arg2)).2
+      = ((σ.subs n).filter Listener.isPlain).map (entryOf n arg2 depth) ∧
+    (∀ c ∈ (step fuel sc depth (step fuel sc depth σ (.emit n arg1)).1 (.emit n arg2)).2,
+      c.via = none) := by
+  have hwf1 : WF (step fuel sc depth σ (.emit n arg1)).1 := WF_step fuel sc depth _ hwf
+  have h1 := (emit_plain_delivery hsc fuel depth hwf n arg1).2.1
+  have h2 := (emit_plain_delivery hsc fuel depth hwf1 n arg2).1
+  rw [h1] at h2
+  refine ⟨h2, ?_⟩
+  intro c hc
+  rw [h2] at hc
+  obtain ⟨l, hl, rfl⟩ := List.mem_map.mp hc
+  have hp := (List.mem_filter.mp hl).2
+  exact (Listener.wid?_eq_none_iff l).mpr hp
+
+/-! ## 5. Snapshot semantics of `emit` (arbitrary callbacks) -/
+
+/-- entries logged by an emit at nesting `depth` have depth `≥ depth`; those with depth exactly `depth`
+    are the calls made by this emit itself, deeper ones come from callbacks' own operations -/
+theorem nested_depth (fuel : Nat) (sc : Scripts) (depth : Nat) (σ : State) (op : Op) :
+    ∀ c ∈ (step fuel sc depth σ op).2, depth ≤ c.depth :=
+  (depth_all sc).2.1 fuel depth σ op
+
+/-- SNAPSHOT: whatever the callbacks do (subscribe, unsubscribe, emit), the calls made by
+    `emit n arg` itself (the depth-`depth` entries of its log) are, in order, the entries
+    `entryOf n arg depth l` for a sub-sequence `called` of the list `σ.subs n` as it was when the emit
+    started; `called` contains every plain listener of that snapshot, and its once-wrappers were
+    unflagged at the start.  Hence listeners subscribed during the delivery are not called by this
+    emit, and listeners unsubscribed during it still are. -/
+theorem emit_snapshot (fuel : Nat) (sc : Scripts) (depth : Nat) (σ : State) (n : Name) (arg : Nat) :
+    ∃ called : List Listener,
+      called.Sublist (σ.subs n) ∧
+      called.filter Listener.isPlain = (σ.subs n).filter Listener.isPlain ∧
+      (∀ l ∈ called, ∀ w, l.wid? = some w → w ∉ σ.fired) ∧
+      (step fuel sc depth σ (.emit n arg)).2.filter (fun c => c.depth = depth)
+        = called.map (entryOf n arg depth) := by
+  rw [step_emit]; exact deliver_top fuel sc depth n arg (σ.subs n) σ
+
+/-- the emit itself makes at most one call per snapshot listener -/
+theorem emit_top_length_le (fuel : Nat) (sc : Scripts) (depth : Nat) (σ : State) (n : Name) (arg : Nat) :
+    ((step fuel sc depth σ (.emit n arg)).2.filter (fun c => c.depth = depth)).length
+      ≤ (σ.subs n).length := by
+  obtain ⟨called, hsub, _, _, hlog⟩ := emit_snapshot fuel sc depth σ n arg
+  rw [hlog, List.length_map]; exact hsub.length_le
+
+/-- every plain listener subscribed to `n` when the emit starts is called by it (with the emitted
+    argument and its context), even if a callback unsubscribes it during the delivery -/
+theorem emit_calls_every_plain (fuel : Nat) (sc : Scripts) (depth : Nat) (σ : State) (n : Name)
+    (arg : Nat) (l : Listener) (hl : l ∈ σ.subs n) (hp : l.isPlain = true) :
+    entryOf n arg depth l ∈ (step fuel sc depth σ (.emit n arg)).2 := by
+  obtain ⟨called, _, hplain, _, hlog⟩ := emit_snapshot fuel sc depth σ n arg
+  have h1 : l ∈ called.filter Listener.isPlain := by
+    rw [hplain]; exact List.mem_filter.mpr ⟨hl, hp⟩
+  have h2 : entryOf n arg depth l ∈ called.map (entryOf n arg depth) :=
+    List.mem_map.mpr ⟨l, (List.mem_filter.mp h1).1, rfl⟩
+  rw [← hlog] at h2
+  exact (List.mem_filter.mp h2).1
+
+/-! ## 6. Names are independent -/
+
+/-- events of one name never reach listeners of another: every call made by `emit n arg` itself
+    carries name `n` and the emitted argument, and its callback, context and wrapper id are those of a
+    listener that was subscribed to `n` when the emit started -/
+theorem names_independent (fuel : Nat) (sc : Scripts) (depth : Nat) (σ : State) (n : Name) (arg : Nat) :
+    ∀ c ∈ (step fuel sc depth σ (.emit n arg)).2, c.depth = depth →
+      c.name = n ∧ c.arg = arg ∧ ∃ l ∈ σ.subs n, c.cb = l.cb ∧ c.ctx = l.ctx ∧ c.via = l.wid? := by
+  intro c hc hd
+  obtain ⟨called, hsub, _, _, hlog⟩ := emit_snapshot fuel sc depth σ n arg
+  have hmem : c ∈ (step fuel sc depth σ (.emit n arg)).2.filter (fun c => c.depth = depth) :=
+    List.mem_filter.mpr ⟨hc, by simp [hd]⟩
+  rw [hlog] at hmem
+  obtain ⟨l, hl, rfl⟩ := List.mem_map.mp hmem
+  exact ⟨rfl, rfl, l, hsub.subset hl, rfl, rfl, rfl⟩
+
+/-- … and for whole histories, at every nesting depth: each call in the log of `run fuel sc ops`
+    is a call of a callback `cb` with context `ctx` under a name `n` such that some operation of the
+    history or of a callback script subscribed exactly (`n`, `cb`, `ctx`) with `on` or `once` -/
+theorem names_independent_global (fuel : Nat) (sc : Scripts) (ops : List Op) :
+    ∀ c ∈ (run fuel sc ops).2,
+      ∃ op, (op ∈ ops ∨ ∃ cb', op ∈ sc cb') ∧
+        (op = .on c.name c.cb c.ctx ∨ op = .once c.name c.cb c.ctx) := by
+  let S : Name → CbId → Ctx → Prop := fun n cb ctx =>
+    ∃ op, (op ∈ ops ∨ ∃ cb', op ∈ sc cb') ∧ (op = .on n cb ctx ∨ op = .once n cb ctx)
+  have hsc : ∀ cb, OpsOK S (sc cb) := fun cb op hop n c ctx h => ⟨op, Or.inr ⟨cb, hop⟩, h⟩
+  have hops : OpsOK S ops := fun op hop n c ctx h => ⟨op, Or.inl hop, h⟩
+  have hinit : SubsOK S init := fun m l hl => by simp [init] at hl
+  exact ((provenance_all sc S hsc).1 fuel 0 init ops hops hinit).2
+
+/-! ## 8. Non-vacuity: concrete histories -/
+
+/-- scripts of the re-entrant example: callback 0 re-emits event 0 during delivery, callback 1 is pure -/
+def scReentrant : Scripts := fun cb => if cb = 0 then [.emit 0 7] else []
+
+/-- the re-entrant history (the repaired defect): `on 0 cb0; once 0 cb1; emit 0 1` with `cb0`
+    re-emitting event 0 — the once-listener `cb1` is called exactly once (by the innermost emit) -/
+example : (run 2 scReentrant [.on 0 0 0, .once 0 1 1, .emit 0 1]).2 =
+    [⟨0, 1, 0, none, 0, 0⟩, ⟨0, 7, 0, none, 0, 1⟩, ⟨0, 7, 0, none, 0, 2⟩, ⟨1, 7, 1, some 0, 0, 2⟩] := by
+  simp [run, runOps, step, deliver, call, doOn, doOnce, doOffWrapper, setSubs, init, scReentrant]
+
+example : ((run 2 scReentrant [.on 0 0 0, .once 0 1 1, .emit 0 1]).2.filter (fun c => c.cb = 1)).length
+    = 1 := by
+  simp [run, runOps, step, deliver, call, doOn, doOnce, doOffWrapper, setSubs, init, scReentrant]
+
+/-- pure listeners, two names, duplicates, once fires on the first emit only, `off(name, cb)` removes
+    plain and once listeners of `cb` -/
+example : (run 1 (fun _ => [])
+    [.on 0 5 10, .once 0 6 11, .on 0 5 12, .on 1 7 13, .emit 0 1, .emit 0 2, .emit 1 3,
+     .once 0 5 14, .offCb 0 5, .emit 0 4]).2 =
+    [⟨5, 1, 10, none, 0, 0⟩, ⟨6, 1, 11, some 0, 0, 0⟩, ⟨5, 1, 12, none, 0, 0⟩,
+     ⟨5, 2, 10, none, 0, 0⟩, ⟨5, 2, 12, none, 0, 0⟩,
+     ⟨7, 3, 13, none, 1, 0⟩] := by
+  simp [run, runOps, step, deliver, call, doOn, doOnce, doOffCb, doOffWrapper, setSubs, init,
+    keepsAgainstCb, keepsAgainstWrapper, List.filter_cons]
+
+/-- a callback that subscribes (cb 0 subscribes cb 2) and one that unsubscribes a later listener
+    (cb 1 removes cb 3) during delivery: the first emit still calls cb 3 and not cb 2 (snapshot),
+    the second emit calls cb 2 and not cb 3 -/
+example : (run 1 (fun cb => if cb = 0 then [.on 0 2 0] else if cb = 1 then [.offCb 0 3] else [])
+    [.on 0 1 0, .on 0 3 0, .emit 0 1, .off 0, .on 0 0 0, .emit 0 2, .emit 0 3]).2 =
+    [⟨1, 1, 0, none, 0, 0⟩, ⟨3, 1, 0, none, 0, 0⟩,
+     ⟨0, 2, 0, none, 0, 0⟩,
+     ⟨0, 3, 0, none, 0, 0⟩, ⟨2, 3, 0, none, 0, 0⟩] := by
+  simp [run, runOps, step, deliver, call, doOn, doOff, doOffCb, setSubs, init, keepsAgainstCb,
+    List.filter_cons]
+
+/-- the hypotheses of `emit_plain_delivery` / `emit_twice_once_only` are satisfiable on a non-trivial
+    state: a reachable state with plain and once listeners under two names -/
+example : ∃ σ : State, WF σ ∧ (σ.subs 0).length = 3 ∧ (σ.subs 0).filterMap Listener.wid? = [0] ∧
+    (∀ cb, (fun _ => [] : Scripts) cb = []) :=
+  ⟨(run 1 (fun _ => []) [.on 0 5 10, .once 0 6 11, .on 0 5 12, .on 1 7 13]).1,
+   WF_run 1 _ _,
+   by simp [run, runOps, step, doOn, doOnce, setSubs, init],
+   by simp [run, runOps, step, doOn, doOnce, setSubs, init, Listener.wid?, List.filterMap_cons],
+   fun _ => rfl⟩
+
+/-- the hypotheses of `once_delivered_gone` are met in the re-entrant history: wrapper 0 is called -/
+example : ∃ c ∈ (run 2 scReentrant [.on 0 0 0, .once 0 1 1, .emit 0 1]).2, c.via = some 0 :=
+  ⟨⟨1, 7, 1, some 0, 0, 2⟩,
+   by simp [run, runOps, step, deliver, call, doOn, doOnce, doOffWrapper, setSubs, init, scReentrant],
+   rfl⟩
+
+/-- `emit_calls_every_once` / `emit_calls_every_plain` / `names_independent` instantiated on the
+    re-entrant history's state before the emit: the state is well-formed, has a once-wrapper (id 0) and
+    a plain listener under name 0 -/
+example : ∃ σ : State, WF σ ∧
+    (∃ l ∈ σ.subs 0, l.wid? = some 0) ∧ (∃ l ∈ σ.subs 0, l.isPlain = true) ∧
+    ((step 1 scReentrant 0 σ (.emit 0 1)).2.filter (fun c => c.via = some 0)).length = 1 := by
+  refine ⟨(run 2 scReentrant [.on 0 0 0, .once 0 1 1]).1, WF_run 2 _ _, ?_, ?_, ?_⟩
+  · exact ⟨⟨.wrapper 0 1, 1⟩, by simp [run, runOps, step, doOn, doOnce, setSubs, init], rfl⟩
+  · exact ⟨⟨.plain 0, 0⟩, by simp [run, runOps, step, doOn, doOnce, setSubs, init], rfl⟩
+  · exact emit_calls_every_once 1 scReentrant 0 (WF_run 2 _ _) 0 1 ⟨.wrapper 0 1, 1⟩
+      (by simp [run, runOps, step, doOn, doOnce, setSubs, init]) 0 rfl
 
 end HotXL.Props.C20
